@@ -547,7 +547,8 @@ def run_shard(shard, rec):
     Pyro5.server.time = vclock
     cfg = {k: shard[k] for k in ("servertype", "streaming", "lifetime", "linger", "serializer")}
     fx = fixture.Fixture(servertype=shard["servertype"], COMMTIMEOUT=0.0, ITER_STREAMING=shard["streaming"], ITER_STREAM_LIFETIME=float(shard["lifetime"]),
-                         ITER_STREAM_LINGER=float(shard["linger"]), THREADPOOL_SIZE=20)
+                         ITER_STREAM_LINGER=float(shard["linger"]), THREADPOOL_SIZE=20, variant=fixture.variant_for(rec.seed, "c10", repr(sorted(shard.items()))))
+    rec.count("fixture_variant:" + fx.variant)
     try:
         fx.register(make_service(P), "src")
         if shard["servertype"] == "thread":
